@@ -51,7 +51,7 @@ ALL_PROPS = ["C04_Monotonic", "C04_FreshVersion", "C05_OwnUntouched", "C20_Callb
 BASE = {
     "Node": vlib.tla_set(["n1", "n2"]), "Writers": vlib.tla_set(["n1"]),
     "Key": vlib.tla_set(["k1", "k2"]), "Val": vlib.tla_set(["a", "b"]),
-    "Cluster": ("<-", "MC_Cluster"), "Grace": 2, "Advances": "{2}", "Budget": 99,
+    "Cluster": ("<-", "MC_Cluster"), "Addr": ("<-", "MC_Addr"), "Grace": 2, "Advances": "{2}", "Budget": 99,
     "MaxVer": 3, "MaxInflight": 1, "MaxClock": 2, "MaxHb": 0, "TrackHb": "FALSE",
     "PhiN": 8, "PhiD": 1, "Window": 3, "MaxInterval": 10, "Prior": 5, "DeadGrace": 100,
     "PredKey": '""', "PredVal": '""', "ConvRounds": 3, "Enable": vlib.tla_set(["api", "gc", "lose", "dup"]),
@@ -140,6 +140,12 @@ def scenarios(tier, seed):
                   "fd": FD_SMALL, "keys": ["k1", "k2"], "advances": [1, 2, 3],
                   "seed": seed * 1000 + 7, "traces": 60 * k, "len": 100, "w_live": 10, "w_hb": 3},
          dict(FD_CONST, Grace=3, Cluster=("<-", "MC_Cluster5")), False),
+        # a node crashes and comes back under a new generation id at the same address (C05's assumption);
+        # datagrams addressed to the old incarnation reach the new one
+        ("s4rs", {"nodes": ["n1", "n2", "n3", "n1~1"], "restart": ["n1", "n1~1"], "grace": 3, "fd": FD_SMALL,
+                  "keys": ["k1", "k2", "k3"], "advances": [1, 2, 3], "seed": seed * 1000 + 10, "traces": 80 * k,
+                  "len": 120, "w_live": 8, "w_hb": 3, "w_sync": 10},
+         dict(FD_CONST, Grace=3), False),
         # external catch-up with honest peer snapshots, interleaved with gossip, GC and partitions
         ("s3cu", {"nodes": ["n1", "n2", "n3"], "grace": 3, "fd": FD_SMALL, "keys": ["k1", "k2", "k3"],
                   "advances": [1, 2, 3, 4], "seed": seed * 1000 + 8, "traces": 60 * k, "len": 90,
@@ -151,6 +157,44 @@ def scenarios(tier, seed):
                    "w_live": 8, "w_catchup": 16, "cu_garbage": True},
          dict(FD_CONST, Grace=3), False, GARBAGE_EXCLUDED),
     ]
+
+
+def _hs(steps, a, b):
+    i = len(steps)
+    steps += [{"a": "CreateSyn", "n": a, "to": b}, {"a": "Process", "n": b, "m": i},
+              {"a": "Process", "n": a, "m": i + 1}, {"a": "Process", "n": b, "m": i + 2}]
+
+
+def witness_scenarios():
+    """Directed scenarios for corner situations that random drivers reach rarely. Each is a fixed step
+    list executed on real nodes and validated like a driver trace (name, hcfg, constants, steps, nogc)."""
+    out = []
+    # W1: a LIVE member's copy is reset by a delta that ends below the copy's previous max version
+    # (the newest entry was deleted and collected at the owner), then the observer evaluates liveness:
+    # the live member's max version DEcreased, a new watch value is due
+    fd = {"phi": 8.0, "window": 5, "max_interval": 10, "initial": 5, "dead_grace": 40}
+    fdc = {"PhiN": 8, "PhiD": 1, "Window": 5, "MaxInterval": 10, "Prior": 5, "DeadGrace": 40}
+    st = [{"a": "Set", "n": "n1", "k": "k1", "v": "v1"}, {"a": "Set", "n": "n1", "k": "k2", "v": "v2"},
+          {"a": "Set", "n": "n1", "k": "k3", "v": "v3"}]
+    for _ in range(3):
+        _hs(st, "n2", "n1")
+        st.append({"a": "Advance", "d": 1})
+    st.append({"a": "Liveness", "n": "n2"})
+    st += [{"a": "Delete", "n": "n1", "k": "k3", "v": ""}, {"a": "Advance", "d": 2}, {"a": "Gc", "n": "n1"}]
+    i = len(st)
+    st += [{"a": "CreateSyn", "n": "n1", "to": "n2"}, {"a": "Process", "n": "n2", "m": i}]   # heartbeat only
+    st.append({"a": "Liveness", "n": "n2"})
+    _hs(st, "n2", "n1")
+    st.append({"a": "Liveness", "n": "n2"})
+    st.append({"a": "Liveness", "n": "n2"})
+    for pred in (None, ["k1", "v1"], ["k3", "v3"]):
+        h = {"nodes": ["n1", "n2"], "grace": 2, "fd": fd}
+        c = dict(fdc, Grace=2)
+        if pred:
+            h["pred"] = pred
+            c.update(PredKey=json.dumps(pred[0]), PredVal=json.dumps(pred[1]))
+        out.append(("w_live_reset" + ("_" + pred[0] if pred else ""), h, c, st, False))
+    return out
 
 
 def trace_constants(over):
@@ -458,6 +502,18 @@ def family_run(tier, seed):
             fam["coverage_hits"][k] = fam["coverage_hits"].get(k, 0) + v
         if len(fam["samples"]) < 4:
             fam["samples"].append(sample)
+    # ---------------- directed witness scenarios
+    for (wname, hcfg, over, steps, nogc) in witness_scenarios():
+        tpath = tmp(f"wit_{wname}_{os.getpid()}.ndjson")
+        run_harness(["trace", json.dumps(hcfg)], stdin_text=json.dumps({"steps": steps}) + "\n", out_path=tpath)
+        total, nev, acc, rej = validate_batch(tpath, trace_constants(over), f"{wname}_{os.getpid()}", nogc)
+        fam["conform"] += acc
+        fam["drivers"][wname] = {"traces": total, "events": nev, "accepted": acc, "rejected": len(rej)}
+        for (lines, at, errs) in rej:
+            fam["divergent"].append({"lines": lines, "over": jsonable(over), "hcfg": hcfg, "steps": steps,
+                                     "nogc": nogc, "excluded": [],
+                                     "note": f"witness {wname}: rejected at event {at}: {errs[:200]}"})
+        os.remove(tpath)
     with open(cpath + ".part", "w") as fh:
         json.dump(fam, fh)
     os.replace(cpath + ".part", cpath)
